@@ -1312,8 +1312,13 @@ class RecordSerializer(TypeSerializer[T, np.void]):
         self._field_serializers = field_serializers
 
     def is_trivially_serializable(self) -> bool:
+        # The dtype is aligned: the in-memory layout is the wire format only if
+        # the fields are laid out without padding (the C++ code makes the same test).
         return all(
             serializer.is_trivially_serializable()
+            for _, serializer in self._field_serializers
+        ) and self._dtype.itemsize == sum(
+            serializer.overall_dtype().itemsize
             for _, serializer in self._field_serializers
         )
 
